@@ -100,7 +100,7 @@ fn census_case(item: u64, rng: &mut Rng, acc: &mut Acc, range: &(String, u32, u3
         if !reached_gamma && n_narrow != 0 && fails.is_empty() {
             fails.push(format!("{} values narrowed although the Gamma draw was not reached", n_narrow));
         }
-        if item < 1 && k == 1 {
+        if acc.samples.is_empty() {
             acc.sample(json!({"graph": su.g.describe(), "census": census.iter().map(|e| format!("{} {}:{} taint={:?}", e.kind, e.file, e.line, (0..128).filter(|i| e.taint >> i & 1 == 1).collect::<Vec<_>>())).collect::<Vec<_>>()}));
         }
         if !fails.is_empty() {
@@ -272,7 +272,7 @@ fn dd_case(item: u64, rng: &mut Rng, acc: &mut Acc) {
         rec("shift_vs_inverse*u_vectors", worst, &mut fails, acc);
         rec("loop_momenta_vs_gaussian_map", kworst, &mut fails, acc);
         acc.count("dd_samples_checked");
-        if item < 8 && nl == 2 {
+        if acc.samples.is_empty() {
             acc.sample(json!({"graph": su.g.describe(), "kappa_F": kappa, "log2_threshold": thr.log2(), "log2_residual_u_vs_det": if r1 > 0.0 { r1.log2() } else { -200.0 }}));
         }
         if !fails.is_empty() {
